@@ -686,7 +686,7 @@ func c17RuntimeTemplate(w *World) *registry.Runtime {
 	if k.ComputeNodes < 1 {
 		k.ComputeNodes = 1
 	}
-	if len(w.Doc.Registry.Runtimes) > 0 {
+	if len(w.Doc.Registry.Runtimes) > 0 && w.Doc.Registry.Runtimes[0].Kind == registry.KindCompute {
 		rt := &registry.Runtime{}
 		if err := cbor.Unmarshal(cbor.Marshal(w.Doc.Registry.Runtimes[0]), rt); err == nil {
 			return rt
@@ -694,6 +694,7 @@ func c17RuntimeTemplate(w *World) *registry.Runtime {
 	}
 	// No runtime in this genesis: derive the template from a scratch world with the same knobs.
 	k.Salt = k.Salt + "/c17tmpl"
+	k.KeyManager = false
 	tw, err := BuildWorld(k)
 	if err != nil || len(tw.Doc.Registry.Runtimes) == 0 {
 		core.Harnessf("c17: cannot build runtime template: %v", err)
